@@ -39,9 +39,22 @@ def has_quantifier(t, _cache={}):
 RL_PER_S = 4000000
 
 
+_HCACHE = {}
+
+
 def vc_hash(obl):
+    """hash of the VC text: sha1 over the s-expressions of the hypotheses (in order) and the goal; per-term digests are cached by AST id
+    because the hypotheses of one path are shared by all its obligations"""
     import hashlib
-    return hashlib.sha1(smt2_of(obl).encode()).hexdigest()[:20]
+    hh = hashlib.sha1()
+    for t in list(obl.hyps) + [obl.goal]:
+        k = t.get_id()
+        d = _HCACHE.get(k)
+        if d is None:
+            d = hashlib.sha1(t.sexpr().encode()).digest()
+            _HCACHE[k] = d
+        hh.update(d)
+    return hh.hexdigest()[:20]
 
 
 def _solve(obl, budget_s, seed, on_model, ground_only=False, want_hash=False):
@@ -60,8 +73,6 @@ def _solve(obl, budget_s, seed, on_model, ground_only=False, want_hash=False):
         out['rl'] = int(st.get_key_value('rlimit count')) if 'rlimit count' in st.keys() else 0
     except Exception:
         out['rl'] = 0
-    if want_hash or r != z3.unsat:
-        out['h'] = vc_hash(obl)
     if r == z3.sat and on_model is not None:
         try:
             out['model'] = on_model(obl, s.model())
@@ -127,8 +138,6 @@ def discharge(obls, timeout=20, procs=16, seed=0, on_model=None, use_cvc5=True, 
             try:
                 if backend == 'cvc5':
                     out = {'verdict': run_cvc5(obls[i], tmo), 'reason': ''}
-                    if want_hash or out['verdict'] != 'unsat':
-                        out['h'] = vc_hash(obls[i])
                 else:
                     if backend == 'z3:ground':
                         out = _solve(obls[i], tmo, seed, None, ground_only=True, want_hash=want_hash)
@@ -204,4 +213,8 @@ def discharge(obls, timeout=20, procs=16, seed=0, on_model=None, use_cvc5=True, 
                     progress(results[i])
         if not todo and not running and retries:
             todo, retries = retries, []
+    for i, o in enumerate(obls):       # hashes in this (per-function) process, where the per-term cache is shared
+        r = results[i]
+        if r is not None and o.expect == 'unsat' and ((want_hash and r.verdict == 'unsat') or r.verdict == 'unknown'):
+            r.h = vc_hash(o)
     return results
